@@ -177,7 +177,7 @@ fn check() {
         // not a verdict about fidelity, but nothing was checked for this upstream kind: report it as its own finding
         chk.violation("relay.progress", &format!("tunnel-never-established:{:?}", UPS[i]), format!("no execution with upstream {:?} ever reported the tunnel established, although the scripted upstream accepts", UPS[i]), json!({"upstream": format!("{:?}", UPS[i])}));
     }
-    if ex < 5000 || seg.load(Ordering::Relaxed) == 0 || stats.distinct.len() < 20 {
+    if chk.violation_count() == 0 && (ex < 5000 || seg.load(Ordering::Relaxed) == 0 || stats.distinct.len() < 20) {
         machinery(format!("vacuous: executions={ex} segmented={} distinct={}", seg.load(Ordering::Relaxed), stats.distinct.len()));
     }
     let coverage = json!({
